@@ -26,7 +26,6 @@ import (
 	"regexp"
 	"sort"
 	"strconv"
-	"strings"
 	"sync"
 	"time"
 
@@ -320,7 +319,7 @@ func (r *run) execute() {
 		r.rec.emit("sub %d", t)
 		err = deps.Runner.Run(pipservices.Pip{
 			Context: pipservices.PipContext{
-				In:    gio.NewInput(strings.NewReader(r.c.script(t))),
+				In:    newScriptInput(r.rec, t, r.c.scriptLines(t)),
 				Out:   gio.NewNilOutput(),
 				Err:   gio.NewNilOutput(),
 				CWD:   cwd,
@@ -404,9 +403,12 @@ func (r *run) execute() {
 	}
 }
 
-// driveCase prints the header, the events and `end` of one case.
-func driveCase(c *Case, w io.Writer) {
-	c.writeHeader(w)
+// driveCase prints the header (unless the caller does that itself), the events and `end` of
+// one case.
+func driveCase(c *Case, w io.Writer, header bool) {
+	if header {
+		c.writeHeader(w)
+	}
 	r := &run{c: c, rec: &recorder{out: w}, gates: newGateCtl(c.Seed, c.Hold)}
 	if p, _ := hx.Guard(r.execute); p {
 		r.gates.releaseAll()
